@@ -37,6 +37,9 @@ def spec_cases(tier):
         for f in fs:
             for subs, text, defs, top in c09.variants(f, limit):
                 out.append((f, defs, top, subs, text, future))
+    for f in c09.arith_formulas():
+        for subs, text, defs, top in c09.variants_any(f, limit, arith=True):
+            out.append((f, defs, top, subs, text, False))
     return out
 
 
